@@ -20,11 +20,17 @@ RECURSIVE KRaw(_, _, _)
 KRaw(a, c, j) == IF a * Pow2(j + 1) <= c THEN KRaw(a, c, j + 1) ELSE j      \* largest j with a * 2^j <= c (j = 0 always qualifies)
 KSpec(a, c) == LET k == KRaw(a, c, 0) IN IF BloomAsFound THEN k ELSE (IF k < 1 THEN 1 ELSE k)
 Emit(rec) == IF EMIT THEN PrintT(ToJson(rec)) ELSE TRUE
-Init == \E n \in Ns, p \in Ps :
-          /\ pt = [n |-> n, a |-> p[1], c |-> p[2]]
-          /\ Emit([k |-> "pt", n |-> n, a |-> p[1], c |-> p[2], kspec |-> KSpec(p[1], p[2])])
+\* very small rates p = 2^-j, given by their exponent (2^61 does not fit TLC's integers): around the point where a cuckoo
+\* fingerprint would need more than 64 bits (2b / 2^l <= p  <=>  l >= j + 1 + log2 b)
+Pexps == {31, 45, 59, 60, 61, 62, 63, 70}
+Init == \/ \E n \in Ns, p \in Ps :
+             /\ pt = [n |-> n, a |-> p[1], c |-> p[2], pexp |-> 0]
+             /\ Emit([k |-> "pt", n |-> n, a |-> p[1], c |-> p[2], pexp |-> 0, kspec |-> KSpec(p[1], p[2])])
+        \/ \E n \in {1, 50}, j \in Pexps :
+             /\ pt = [n |-> n, a |-> 1, c |-> 1, pexp |-> j]
+             /\ Emit([k |-> "pt", n |-> n, a |-> 1, c |-> 1, pexp |-> j, kspec |-> j])
 Next == UNCHANGED pt
 Spec == Init /\ [][Next]_pt
 \* the property on the specification itself: every point yields at least one hash function
-UsableK == KSpec(pt.a, pt.c) >= 1
+UsableK == pt.pexp > 0 \/ KSpec(pt.a, pt.c) >= 1
 =============================================================================
